@@ -112,6 +112,16 @@ func TestVerifC05Node(t *testing.T) {
 				resp.Code, resp.Err = -1, err.Error()
 			}
 			reply(resp)
+		case "snappost":
+			// the line is posted after FSM.Snapshot returned and before Persist runs
+			time.Sleep(2 * time.Millisecond)
+			var pr vResp
+			err := n.snapshotWith(func() { pr = n.post(s, c.Data, c.Cmid) })
+			resp := c05Resp{Code: pr.Code, Err: pr.Body}
+			if err != nil {
+				resp.Code, resp.Err = -1, "snapshot: "+err.Error()
+			}
+			reply(resp)
 		case "log":
 			resp := c05Resp{Code: 200}
 			for _, e := range n.logEntries() {
@@ -202,6 +212,7 @@ func (c *c05Child) kill() {
 }
 
 type c05Posted struct {
+	line  string // the complete line when it is not a channel message
 	text  string
 	cmid  uint64
 	acked bool
@@ -227,7 +238,9 @@ func TestVerifC05(t *testing.T) {
 	}
 	res := &vSeqResult{EndStates: map[string]int{}, Depth: depth}
 	sigs := map[string]*vViol{}
-	alphabet := []string{"postA", "postB", "retryA", "snapshot", "kill", "restart", "postA-kill"}
+	// snap+toggleA: A joins/parts #t (a line whose second application has a different effect) in the window
+	// between FSM.Snapshot and Persist of a forced snapshot
+	alphabet := []string{"postA", "postB", "retryA", "snapshot", "snap+toggleA", "kill", "restart", "postA-kill"}
 	base := t.TempDir()
 	seqs := vSeqs(alphabet, depth)
 	if rp := os.Getenv("VERIF_REPLAY"); rp != "" {
@@ -272,9 +285,11 @@ func TestVerifC05(t *testing.T) {
 		for _, l := range []string{"NICK a", "USER a 0 * :a", "JOIN #c"} {
 			must(c05Cmd{Op: "post", Sid: A.Sid, Auth: A.Auth, Num: A.Num, Data: l, Cmid: next()})
 		}
-		for _, l := range []string{"NICK b", "USER b 0 * :b", "JOIN #c"} {
+		for _, l := range []string{"NICK b", "USER b 0 * :b", "JOIN #c", "JOIN #t"} {
 			must(c05Cmd{Op: "post", Sid: B.Sid, Auth: B.Auth, Num: B.Num, Data: l, Cmid: next()})
 		}
+		aOnT := false
+		var toggles []string // acknowledged JOIN/PART #t of A, in order: B must see exactly these announcements
 		V := must(c05Cmd{Op: "create"}) // sentinel: only posts the markers the streams are read up to
 		for _, l := range []string{"NICK v", "USER v 0 * :v", "JOIN #c"} {
 			must(c05Cmd{Op: "post", Sid: V.Sid, Auth: V.Auth, Num: V.Num, Data: l, Cmid: next()})
@@ -317,6 +332,25 @@ func TestVerifC05(t *testing.T) {
 					}
 				}
 				before[other] = msgs
+				if other == "B" {
+					var seen []string
+					for _, m := range msgs {
+						if strings.HasPrefix(m.Data, ":a!") && (strings.Contains(m.Data, " JOIN ") || strings.Contains(m.Data, " PART ")) && strings.Contains(m.Data, "#t") {
+							if strings.Contains(m.Data, " JOIN ") {
+								seen = append(seen, "JOIN")
+							} else {
+								seen = append(seen, "PART")
+							}
+						}
+					}
+					var want []string
+					for _, l := range toggles {
+						want = append(want, strings.Fields(l)[0])
+					}
+					if strings.Join(seen, ",") != strings.Join(want, ",") {
+						res.report(sigs, "C05", "acknowledged JOIN/PART sequence is not what the other member is served after "+after, fmt.Sprintf("sequence %v, after op %d: A was acknowledged %v, B is served %v", seq, oi, want, seen), seq)
+					}
+				}
 				// (2) every acknowledged message of `who` exactly once, in post order; unacknowledged ones at most once
 				var got []string
 				for _, m := range msgs {
@@ -374,7 +408,11 @@ func TestVerifC05(t *testing.T) {
 					continue
 				}
 				res.Retries++
-				r := must(c05Cmd{Op: "post", Sid: A.Sid, Auth: A.Auth, Num: A.Num, Data: "PRIVMSG #c :" + lastA.text, Cmid: lastA.cmid})
+				data := "PRIVMSG #c :" + lastA.text
+				if lastA.line != "" {
+					data = lastA.line
+				}
+				r := must(c05Cmd{Op: "post", Sid: A.Sid, Auth: A.Auth, Num: A.Num, Data: data, Cmid: lastA.cmid})
 				if r.Code == 200 {
 					lastA.acked = true
 				}
@@ -382,6 +420,24 @@ func TestVerifC05(t *testing.T) {
 				res.Snapshots++
 				if r := must(c05Cmd{Op: "snapshot"}); r.Code != 200 {
 					herr(fmt.Errorf("snapshot: %s", r.Err))
+				}
+			case "snap+toggleA":
+				res.Snapshots++
+				line := "JOIN #t"
+				if aOnT {
+					line = "PART #t :toggle"
+				}
+				tp := &c05Posted{line: line, cmid: next()}
+				r := must(c05Cmd{Op: "snappost", Sid: A.Sid, Auth: A.Auth, Num: A.Num, Data: line, Cmid: tp.cmid})
+				if r.Code == -1 {
+					herr(fmt.Errorf("%s", r.Err))
+				} else if r.Code != 200 {
+					res.report(sigs, "C05", "POST refused while a snapshot is being written", fmt.Sprintf("sequence %v op %d: %d %s", seq, oi, r.Code, r.Err), seq)
+				} else {
+					aOnT = !aOnT
+					toggles = append(toggles, line)
+					tp.acked = true
+					lastA = tp // it is A's last message now: this is what a retry repeats
 				}
 			case "kill":
 				restart(true)
